@@ -206,6 +206,8 @@ def micro (c : Cfg) (deps : List Dep) (s : St) (t : Nat) (sig : Sig) : Next :=
             let o := fr.a
             let s1 := emit { s with objs := setAt s.objs o { (s.objs.getD o ⟨n, false, .failed, .done⟩) with dep := .failed } } (.connDeployFail n)
             let s2 := emit { s1 with depmap := delete s1.depmap n } (.depPop n)
+            -- `self.deployments_map.pop(name)` raises KeyError when a concurrent undeploy removed the entry: no `set()`
+            if (lookup s1.depmap n).isNone then pop s2 .raise else
             match lookup s2.evmap n with
             | some e => pop (emit (setEvent s2 e) (.evSet n)) .raise
             | none => pop s2 .raise
